@@ -195,6 +195,8 @@ CURATED = [
     '===D===\n\u00a71::NAME\n  A::1\n  \u00a72b::INNER[note,x]\n    B::["x"\u2227REQ\u2192\u00a7SELF]\n\u00a7CONTEXT::\n  V::$VAR\n===END===\n',
     '===D===\nA::NEVER[X,Y]\nB::FOO[]\nC::REGEX::"x"\nD::[REGEX::"a",ENUM::"b",k::v]\nE::ATHENA<wisdom>\nPATTERN::abc\n===END===\n',
     '===D===\nL::[[1,[2,[3,[4,[5,[6,[7]]]]]]],[k::v,k2::[a,b]],"s",true,null,-1.5e3,1.2.3,$V]\n===END===\n',
+    '===D===\nRULES::[PATTERN::[a,b],REGEX::1,PATTERN::["x"\u2227REQ],REGEX::[k::v],ENUM::[[1],2],PATTERN::null,REGEX::true]\nPATTERN::[a,[b]]\nREGEX::[k::[1]]\n===END===\n',
+    '===D===\nMETA:\n  TYPE::"T"\n  PATTERN::[a,b]\n  L::[REGEX::[a,b],PATTERN::1.5]\n===END===\n',
     "K::" + "[" * 99 + "1" + "]" * 99,
     "L::" + "[" * 40 + "a::b" + "]" * 40,
     '---\nname: Agent (x)\ndescription: "y"\n---\n===D===\nMETA:\n  TYPE::"T"\nK::v\n===END===\n',
@@ -251,7 +253,9 @@ def _rand_value(rng, depth=0):
     if r < 0.9 and depth < 4:
         n = rng.randint(0, 4)
         sep = rng.choice([",", ",", "\u2227", "\u2192", ", ", ",\n    "])
-        return "[" + sep.join(_rand_value(rng, depth + 1) for _ in range(n)) + "]"
+        # an item may be an inline-map pair KEY::value whose value is ANY value (list, number, holographic group), with the keys that
+        # have special handling (PATTERN / REGEX / constructor names) in the pool: warnings then carry non-string payloads (seed r7-C20-a)
+        return "[" + sep.join((rng.choice(KEYS) + "::" if rng.random() < 0.25 else "") + _rand_value(rng, depth + 1) for _ in range(n)) + "]"
     if r < 0.95:
         return "\n```" + rng.choice(["", "py", " a b"]) + "\nlit\t\n```"
     return ""
